@@ -79,7 +79,7 @@ impl SystemdUnitFile {
         let mut dropin_dirs: Vec<PathBuf> = Vec::new();
 
         for source_path in &source_paths {
-            let mut unit_dropin_dir = self.path().as_os_str().to_os_string();
+            let mut unit_dropin_dir = self.file_name().to_os_string();
             unit_dropin_dir.push(".d");
             dropin_dirs.push(source_path.join(unit_dropin_dir));
         }
@@ -87,9 +87,7 @@ impl SystemdUnitFile {
         // For instantiated templates, also look in the non-instanced template dropin dirs
         if let (Some(template_base), Some(_)) = self.path().file_name_template_parts() {
             for source_path in &source_paths {
-                let template_dropin_dir = self
-                    .path()
-                    .with_file_name(format!("{template_base}@.{}.d", self.unit_type()));
+                let template_dropin_dir = format!("{template_base}@.{}.d", self.unit_type());
                 dropin_dirs.push(source_path.join(template_dropin_dir));
             }
         }
